@@ -11,7 +11,7 @@ IMPORTS = 'Require Import V.Base.MachineInt V.Model.WireBytes V.Model.WireCodes 
 K1_TABLES = wire_k1.K1_TABLES
 RULE = ('every DriverProxy method (add_publication, add_exclusive_publication, remove_publication, add_subscription, remove_subscription, '
         'send_client_keepalive, add/remove_destination, add/remove_rcv_destination, add_counter, remove_counter, client_close, '
-        'terminate_driver) on a fresh 64 KiB ManyToOneRingBuffer whose correlation counter was preset (client id c0 from {MIN, -1, 0, 1, '
+        'terminate_driver; string arguments of three content flavours incl. invalid UTF-8) on a fresh 64 KiB ManyToOneRingBuffer whose correlation counter was preset (client id c0 from {MIN, -1, 0, 1, '
         '2^32, MAX-1, MAX, random}); ids from {MIN, -1, 0, 1, MAX, random}; channel lengths 0..700 with every length within 6 of the '
         'largest that fits the 512-byte command buffer (488 / 480 / 484 for publication / subscription / destination messages); counter '
         'keys 0..112 x labels 0..380 stratified (all 4 key residues mod 4, every pair on the 512-byte boundary and the two lengths '
@@ -23,7 +23,7 @@ RULE = ('every DriverProxy method (add_publication, add_exclusive_publication, r
         'string / key / token of >= 16 bytes or an id outside the i32 range; distinct = distinct case tuples')
 ASSUMPTIONS = [
     'single calls on a fresh 64 KiB ring; sequences on 1/2/4 KiB rings used by one thread (the ring acceptance model of Model/WireProxySeq.v is single-threaded; concurrent producers, unblock and the ring\'s own guarantees belong to C06 / C07 / C02)',
-    'channels and labels are C strings (no NUL; the harness uses printable ASCII), keys and tokens are arbitrary bytes',
+    'channels and labels are C strings: any bytes 1..255 (three flavours: printable ASCII, every byte 1..255 in turn = invalid UTF-8, ASCII with Latin-1 / stray continuation bytes); keys and tokens any bytes 0..255',
     'the model is DriverProxy as repaired by fixes/C13-oversize-command-rejected.diff (on the unrepaired tree oversize requests panic)',
 ]
 TRUSTED = [
@@ -38,6 +38,11 @@ CMD_BUF = 512
 
 def wrap64(x):
     return (x + 2**63) % 2**64 - 2**63
+
+
+def _sk(rng):
+    """string flavour + seed: < 1000 printable ASCII, 1000.. every byte 1..255 (invalid UTF-8), 2000.. ASCII with Latin-1 / stray continuation bytes"""
+    return rng.choice([0, 0, 1000, 1000, 2000]) + rng.randrange(0, 1000)
 
 
 def _c0s(rng):
@@ -77,20 +82,37 @@ def generate(rng, tier):
         for k in (0, 1, 2):
             add(kind='remove', c0=rng.choice(_c0s(rng)), k=k, reg=reg)
         for k in (0, 1, 2, 3):
-            add(kind='dest', c0=rng.choice(_c0s(rng)), k=k, reg=reg, ck=rng.randrange(0, 1000), cn=rng.choice([0, 5, 33]))
+            add(kind='dest', c0=rng.choice(_c0s(rng)), k=k, reg=reg, ck=_sk(rng), cn=rng.choice([0, 5, 33]))
     for s in _i32s(rng):
         for excl in (0, 1):
-            add(kind='addpub', c0=rng.choice(_c0s(rng)), excl=excl, stream=s, ck=rng.randrange(0, 1000), cn=rng.choice([0, 5, 33]))
-        add(kind='addsub', c0=rng.choice(_c0s(rng)), stream=s, ck=rng.randrange(0, 1000), cn=rng.choice([0, 5, 33]))
-        add(kind='counter', c0=rng.choice(_c0s(rng)), type=s, kk=rng.randrange(0, 1000), kn=rng.choice([0, 3, 8]), lk=rng.randrange(0, 1000), ln=rng.choice([0, 5, 33]))
+            add(kind='addpub', c0=rng.choice(_c0s(rng)), excl=excl, stream=s, ck=_sk(rng), cn=rng.choice([0, 5, 33]))
+        add(kind='addsub', c0=rng.choice(_c0s(rng)), stream=s, ck=_sk(rng), cn=rng.choice([0, 5, 33]))
+        add(kind='counter', c0=rng.choice(_c0s(rng)), type=s, kk=_sk(rng), kn=rng.choice([0, 3, 8]), lk=_sk(rng), ln=rng.choice([0, 5, 33]))
     for n in _chan_lens(rng, 24, big):
-        add(kind='addpub', c0=rng.choice(_c0s(rng)), excl=rng.choice([0, 1]), stream=rng.choice(_i32s(rng)), ck=rng.randrange(0, 1000), cn=n)
+        add(kind='addpub', c0=rng.choice(_c0s(rng)), excl=rng.choice([0, 1]), stream=rng.choice(_i32s(rng)), ck=_sk(rng), cn=n)
     for n in _chan_lens(rng, 32, big):
-        add(kind='addsub', c0=rng.choice(_c0s(rng)), stream=rng.choice(_i32s(rng)), ck=rng.randrange(0, 1000), cn=n)
+        add(kind='addsub', c0=rng.choice(_c0s(rng)), stream=rng.choice(_i32s(rng)), ck=_sk(rng), cn=n)
     for n in _chan_lens(rng, 28, big):
-        add(kind='dest', c0=rng.choice(_c0s(rng)), k=rng.choice([0, 1, 2, 3]), reg=rng.choice(_i64s(rng)), ck=rng.randrange(0, 1000), cn=n)
+        add(kind='dest', c0=rng.choice(_c0s(rng)), k=rng.choice([0, 1, 2, 3]), reg=rng.choice(_i64s(rng)), ck=_sk(rng), cn=n)
     for n in sorted(set(range(0, 10)) | set(range(486, 499)) | {100, 511, 512, 513, 600} | {rng.randrange(0, 601) for _ in range(8)}):
-        add(kind='terminate', c0=rng.choice(_c0s(rng)), tk=rng.randrange(0, 1000), tn=n)
+        add(kind='terminate', c0=rng.choice(_c0s(rng)), tk=_sk(rng), tn=n)
+    # every method that takes a string, with non-ASCII / invalid UTF-8 content, short and on the 512-byte boundary
+    for fl in (1000, 2000):
+        for d in (-2, -1, 0, 1):
+            for excl in (0, 1):
+                add(kind='addpub', c0=rng.choice(_c0s(rng)), excl=excl, stream=7, ck=fl + rng.randrange(0, 1000), cn=488 + d)
+            add(kind='addsub', c0=rng.choice(_c0s(rng)), stream=7, ck=fl + rng.randrange(0, 1000), cn=480 + d)
+            for k in (0, 1, 2, 3):
+                add(kind='dest', c0=rng.choice(_c0s(rng)), k=k, reg=9, ck=fl + rng.randrange(0, 1000), cn=484 + d)
+            add(kind='terminate', c0=rng.choice(_c0s(rng)), tk=fl + rng.randrange(0, 1000), tn=492 + d)
+            add(kind='counter', c0=rng.choice(_c0s(rng)), type=3, kk=fl + rng.randrange(0, 1000), kn=109, lk=fl + rng.randrange(0, 1000), ln=372 + d)
+        for n in (1, 2, 3, 4, 9, 64, 255, 256):
+            for excl in (0, 1):
+                add(kind='addpub', c0=rng.choice(_c0s(rng)), excl=excl, stream=7, ck=fl + rng.randrange(0, 1000), cn=n)
+            add(kind='addsub', c0=rng.choice(_c0s(rng)), stream=7, ck=fl + rng.randrange(0, 1000), cn=n)
+            add(kind='dest', c0=rng.choice(_c0s(rng)), k=rng.randrange(0, 4), reg=9, ck=fl + rng.randrange(0, 1000), cn=n)
+            add(kind='terminate', c0=rng.choice(_c0s(rng)), tk=fl + rng.randrange(0, 1000), tn=n)
+            add(kind='counter', c0=rng.choice(_c0s(rng)), type=3, kk=fl + rng.randrange(0, 1000), kn=n % 113, lk=fl + rng.randrange(0, 1000), ln=n)
     # counters: key length x label length
     pairs = set()
     if big:
@@ -110,7 +132,7 @@ def generate(rng, tier):
         while len(pairs) < 700:
             pairs.add((rng.randrange(0, 113), rng.randrange(0, 381)))
     for kn, ln in sorted(pairs):
-        add(kind='counter', c0=rng.choice(_c0s(rng)), type=rng.choice(_i32s(rng)), kk=rng.randrange(0, 1000), kn=kn, lk=rng.randrange(0, 1000), ln=ln)
+        add(kind='counter', c0=rng.choice(_c0s(rng)), type=rng.choice(_i32s(rng)), kk=_sk(rng), kn=kn, lk=_sk(rng), ln=ln)
     # beyond the documented counter limits too (the proxy itself has no such limit)
     for kn, ln in [(113, 0), (200, 100), (0, 500), (488, 0), (484, 0), (485, 0), (0, 484), (0, 485), (600, 600)]:
         add(kind='counter', c0=5, type=1, kk=1, kn=kn, lk=2, ln=ln)
@@ -130,24 +152,24 @@ def _small_request(rng):
     if k in ('keepalive', 'close'):
         return {'kind': k}
     if k == 'addpub':
-        return {'kind': 'addpub', 'excl': rng.randrange(0, 2), 'stream': i32(), 'ck': rng.randrange(0, 1000), 'cn': n}
+        return {'kind': 'addpub', 'excl': rng.randrange(0, 2), 'stream': i32(), 'ck': _sk(rng), 'cn': n}
     if k == 'addsub':
-        return {'kind': 'addsub', 'stream': i32(), 'ck': rng.randrange(0, 1000), 'cn': n}
+        return {'kind': 'addsub', 'stream': i32(), 'ck': _sk(rng), 'cn': n}
     if k == 'dest':
-        return {'kind': 'dest', 'k': rng.randrange(0, 4), 'reg': i64(), 'ck': rng.randrange(0, 1000), 'cn': n}
+        return {'kind': 'dest', 'k': rng.randrange(0, 4), 'reg': i64(), 'ck': _sk(rng), 'cn': n}
     if k == 'counter':
-        return {'kind': 'counter', 'type': i32(), 'kk': rng.randrange(0, 1000), 'kn': rng.choice([0, 1, 5, 8, 13]), 'lk': rng.randrange(0, 1000), 'ln': n // 2}
-    return {'kind': 'terminate', 'tk': rng.randrange(0, 1000), 'tn': n}
+        return {'kind': 'counter', 'type': i32(), 'kk': _sk(rng), 'kn': rng.choice([0, 1, 5, 8, 13]), 'lk': _sk(rng), 'ln': n // 2}
+    return {'kind': 'terminate', 'tk': _sk(rng), 'tn': n}
 
 
 def _big_request(rng):
     """records of 130..512 bytes (refused by rings whose max message length is smaller) and requests that do not fit the command buffer"""
     n = rng.choice([104, 105, 120, 200, 232, 233, 300, 480, 488, 489, 500, 600])
     return rng.choice([
-        {'kind': 'addpub', 'excl': 0, 'stream': 5, 'ck': rng.randrange(0, 1000), 'cn': n},
-        {'kind': 'dest', 'k': rng.randrange(0, 4), 'reg': 77, 'ck': rng.randrange(0, 1000), 'cn': n},
+        {'kind': 'addpub', 'excl': 0, 'stream': 5, 'ck': _sk(rng), 'cn': n},
+        {'kind': 'dest', 'k': rng.randrange(0, 4), 'reg': 77, 'ck': _sk(rng), 'cn': n},
         {'kind': 'counter', 'type': 3, 'kk': 1, 'kn': rng.choice([7, 112]), 'lk': 2, 'ln': min(n, 380)},
-        {'kind': 'terminate', 'tk': rng.randrange(0, 1000), 'tn': n},
+        {'kind': 'terminate', 'tk': _sk(rng), 'tn': n},
     ])
 
 
@@ -220,21 +242,21 @@ def impl_line(c):
 def request_term(c):
     k = c['kind']
     if k == 'addpub':
-        return 'RqAddPublication %s (chars %s %s) %s' % ('true' if c['excl'] else 'false', z(c['ck']), z(c['cn']), z(c['stream']))
+        return 'RqAddPublication %s (cstr %s %s) %s' % ('true' if c['excl'] else 'false', z(c['ck']), z(c['cn']), z(c['stream']))
     if k == 'addsub':
-        return 'RqAddSubscription (chars %s %s) %s' % (z(c['ck']), z(c['cn']), z(c['stream']))
+        return 'RqAddSubscription (cstr %s %s) %s' % (z(c['ck']), z(c['cn']), z(c['stream']))
     if k == 'remove':
         return 'RqRemove %s %s' % (['RmPublication', 'RmSubscription', 'RmCounter'][c['k']], z(c['reg']))
     if k == 'dest':
-        return 'RqDestination %s %s (chars %s %s)' % (['DsAdd', 'DsRemove', 'DsAddRcv', 'DsRemoveRcv'][c['k']], z(c['reg']), z(c['ck']), z(c['cn']))
+        return 'RqDestination %s %s (cstr %s %s)' % (['DsAdd', 'DsRemove', 'DsAddRcv', 'DsRemoveRcv'][c['k']], z(c['reg']), z(c['ck']), z(c['cn']))
     if k == 'counter':
-        return 'RqAddCounter %s (payload %s %s) (chars %s %s)' % (z(c['type']), z(c['kk']), z(c['kn']), z(c['lk']), z(c['ln']))
+        return 'RqAddCounter %s (blob %s %s) (cstr %s %s)' % (z(c['type']), z(c['kk']), z(c['kn']), z(c['lk']), z(c['ln']))
     if k == 'keepalive':
         return 'RqKeepalive'
     if k == 'close':
         return 'RqClientClose'
     if k == 'terminate':
-        return 'RqTerminateDriver (payload %s %s)' % (z(c['tk']), z(c['tn']))
+        return 'RqTerminateDriver (blob %s %s)' % (z(c['tk']), z(c['tn']))
     raise ValueError(c)
 
 
